@@ -1,18 +1,2 @@
-(* The two larger small curves: (p, n) = (79, 67) [n < p, like secp256k1] and (67, 79) [n > p].
-   ~0.3 and ~0.5 million associativity triples: a few minutes of kernel computation. *)
-From Coq Require Import ZArith List Bool Lia.
-Require Import Bits.Lib.Result Bits.Model.Ecmath Bits.Proofs.Ecmath Bits.Proofs.Ecdsa Bits.Proofs.SmallCurves.
-Import ListNotations.
-Local Open Scope Z_scope.
-
-Definition G79 : point := Eval vm_compute in hd None (tl (all_pts 79 0 7)).
-Theorem facts_79 : curve_facts 79 0 7 67 G79.
-Proof.
-  apply check_facts_sound; [lia | lia | reflexivity | reflexivity | vm_compute; reflexivity | vm_compute; reflexivity].
-Qed.
-
-Definition G67 : point := Eval vm_compute in hd None (tl (all_pts 67 0 7)).
-Theorem facts_67 : curve_facts 67 0 7 79 G67.
-Proof.
-  apply check_facts_sound; [lia | lia | reflexivity | reflexivity | vm_compute; reflexivity | vm_compute; reflexivity].
-Qed.
+(* re-exports the two larger small curves (compiled in parallel from their own files) *)
+Require Export Bits.Proofs.SmallCurves79 Bits.Proofs.SmallCurves67.
